@@ -165,10 +165,6 @@ package consensus
 //@ import cstypes github.com/tendermint/tendermint/consensus/types
 //@ extern cstypes.HeightVoteSet.SetPeerMaj23
 //@   assigns except(consensus)
-//@ extern cstypes.HeightVoteSet.Prevotes
-//@   assigns nothing
-//@ extern cstypes.HeightVoteSet.Precommits
-//@   assigns nothing
 //@ extern types.VoteSet.BitArrayByBlockID
 //@   assigns nothing
 //@ extern p2p.TrySendEnvelopeShim
@@ -284,3 +280,208 @@ package consensus
 //@   loop 1 invariant t: true
 //@   atcall State.handleMsg logged: walFresh
 //@   atcall State.handleTimeout logged: walFresh
+
+// ---- C02: one validator - at most one vote of a kind per height and round, every precommit justified, locks respected.
+// RoundStepPrevote = 4, RoundStepPrecommit = 6 (consensus/types/round_state.go).
+//@ import tmproto github.com/tendermint/tendermint/proto/tendermint/types
+//@ extern log.Logger.With
+//@   assigns nothing
+//@ extern types.EventBus.PublishEventPolka
+//@   assigns nothing
+//@ extern types.EventBus.PublishEventUnlock
+//@   assigns nothing
+//@ extern types.EventBus.PublishEventRelock
+//@   assigns nothing
+//@ extern types.EventBus.PublishEventLock
+//@   assigns nothing
+//@ func State.RoundStateEvent
+//@   trusted
+//@   assigns nothing
+// ASSUMED frame: announcing a new step (WAL record, event bus, event switch) does not touch the round state.
+//@ func State.newStep
+//@   trusted
+//@   assigns cs.nSteps, walFresh
+// ASSUMED: the vote sets of a round and their two-thirds majority are functions of the vote-set objects (they only grow;
+// nothing is added while a step function runs - one goroutine owns the consensus state).
+//@ extern cstypes.HeightVoteSet.POLInfo
+//@   assigns nothing
+//@ extern types.PartSet.HasHeader
+//@   assigns nothing
+//@ extern types.NewPartSetFromHeader
+//@   assigns nothing
+//@ extern types.PartSet.Header
+//@   assigns nothing
+
+// Signing: the vote handed to the signer is for exactly the state's current height and round, of the requested type,
+// for the requested block id, and the WAL has been flushed and synced first.
+//@ ghost var walSyncedForSign bool
+//@ extern WAL.FlushAndSync
+//@   assigns walSyncedForSign
+//@   sets walSyncedForSign = (result == nil) when true
+//@ extern types.PrivValidator.SignVote
+//@   assigns walSyncedForSign
+//@   sets walSyncedForSign = false when true
+//@ extern types.Vote.ToProto
+//@   assigns nothing
+//@   ensures same: result != nil && result.Height == vote.Height && result.Round == vote.Round && result.Type == vote.Type && result.BlockID.Hash == vote.BlockID.Hash
+//@ func State.voteTime
+//@   trusted
+//@   assigns nothing
+//@ func State.signVote
+//@   requires wf: len(cs.RoundState.Validators.Validators) <= 2147483647
+//@   atcall PrivValidator.SignVote exact: walSyncedForSign && arg1.Height == cs.RoundState.Height && arg1.Round == cs.RoundState.Round && arg1.Type == msgType && arg1.BlockID.Hash == hash
+//@   ensures vote: result1 == nil ==> (result0 != nil && result0.Height == cs.RoundState.Height && result0.Round == cs.RoundState.Round && result0.Type == msgType && result0.BlockID.Hash == hash)
+
+// ASSUMED frame of signAddVote (it signs through signVote and queues the vote for the node itself): the round state is
+// not written.
+//@ func State.signAddVote
+//@   trusted
+//@   assigns except(consensus.State, cstypes, types, sm)
+
+// Precommit: entered at most once per height and round (the guard), signs exactly one precommit, and a precommit for a
+// block only under a polka for that block in this very round with the block validated and locked in this round.
+//@ func State.enterPrecommit
+//@   assigns except(types.Vote), walFresh, walSyncedForSign, lastBasicOK, lastCommitVerified
+//@   requires cur: cs.RoundState.Height != height || round <= cs.RoundState.Round
+//@   ensures stepped: old(cs.RoundState.Height == height && cs.RoundState.Round <= round && !(cs.RoundState.Round == round && 6 <= cs.RoundState.Step)) ==> (cs.RoundState.Round == round && cs.RoundState.Step == 6)
+//@   ensures idle: old(cs.RoundState.Height != height || round < cs.RoundState.Round || (cs.RoundState.Round == round && 6 <= cs.RoundState.Step)) ==> (cs.RoundState.Step == old(cs.RoundState.Step) && cs.RoundState.Round == old(cs.RoundState.Round) && cs.RoundState.LockedRound == old(cs.RoundState.LockedRound) && cs.RoundState.LockedBlock == old(cs.RoundState.LockedBlock))
+//@   atcall State.signAddVote once: arg1 == 2 && cs.RoundState.Height == height && cs.RoundState.Round == round && cs.RoundState.Step < 6
+//@   atcall State.signAddVote justified: len(arg2) != 0 ==> (ok && blockID.Hash == arg2 && cs.RoundState.LockedBlock != nil && cs.RoundState.LockedRound == round && types.Block.HashesTo(cs.RoundState.LockedBlock, arg2))
+//@   ensures lock: cs.RoundState.LockedRound == old(cs.RoundState.LockedRound) || cs.RoundState.LockedRound == -1 || (cs.RoundState.LockedRound == round && ok && len(blockID.Hash) != 0 && types.Block.HashesTo(cs.RoundState.LockedBlock, blockID.Hash))
+//@   ensures lockrule: (cs.RoundState.LockedRound == old(cs.RoundState.LockedRound) && cs.RoundState.LockedBlock == old(cs.RoundState.LockedBlock))
+//@     | || (cs.RoundState.LockedRound == -1 && cs.RoundState.LockedBlock == nil && polka(cs, round) && !types.Block.HashesTo(old(cs.RoundState.LockedBlock), polkaHash(cs, round)))
+//@     | || (cs.RoundState.LockedRound == round && polka(cs, round) && types.Block.HashesTo(cs.RoundState.LockedBlock, polkaHash(cs, round)))
+//@   ensures same: cs.RoundState.Height == old(cs.RoundState.Height) && cs.RoundState.Votes == old(cs.RoundState.Votes) && cs.RoundState.Round >= old(cs.RoundState.Round)
+
+// Prevote: entered at most once per height and round; while locked, the only prevote signed is for the locked block;
+// a block that is not the locked one is prevoted only after ValidateBlock accepted it.
+//@ func State.defaultDoPrevote
+//@   atcall State.signAddVote kind: arg1 == 1
+//@   atcall State.signAddVote locked: cs.RoundState.LockedBlock != nil ==> arg2 == types.Block.Hash(cs.RoundState.LockedBlock)
+//@   atcall State.signAddVote valid: (cs.RoundState.LockedBlock == nil && len(arg2) != 0) ==> (arg2 == types.Block.Hash(cs.RoundState.ProposalBlock) && blockValidated(cs.RoundState.ProposalBlock, cs.state.Validators, cs.state.LastBlockHeight))
+//@ extern State.doPrevote
+//@   assigns except(consensus.State, cstypes, types, sm)
+//@ func State.enterPrevote
+//@   assigns except(types.Vote), walFresh, walSyncedForSign, lastBasicOK, lastCommitVerified
+//@   requires cur: cs.RoundState.Height != height || round <= cs.RoundState.Round
+//@   ensures stepped: old(cs.RoundState.Height == height && cs.RoundState.Round <= round && !(cs.RoundState.Round == round && 4 <= cs.RoundState.Step)) ==> (cs.RoundState.Round == round && cs.RoundState.Step == 4)
+//@   ensures idle: old(cs.RoundState.Height != height || round < cs.RoundState.Round || (cs.RoundState.Round == round && 4 <= cs.RoundState.Step)) ==> (cs.RoundState.Step == old(cs.RoundState.Step) && cs.RoundState.Round == old(cs.RoundState.Round))
+//@   ensures lockkept: cs.RoundState.LockedRound == old(cs.RoundState.LockedRound) && cs.RoundState.LockedBlock == old(cs.RoundState.LockedBlock)
+//@   ensures same: cs.RoundState.Height == old(cs.RoundState.Height) && cs.RoundState.Votes == old(cs.RoundState.Votes) && cs.RoundState.Round >= old(cs.RoundState.Round)
+//@   atcall State.doPrevote once: cs.RoundState.Height == height && cs.RoundState.Round == round && cs.RoundState.Step < 4
+
+// Propose: entered at most once per height and round; the proposal handed to the signer is for exactly the height and
+// round being entered (RoundStepPropose = 3). The deferred step may go straight on to prevote (step 4).
+//@ extern types.ValidatorSet.GetProposer
+//@   assigns all(types.ValidatorSet.Proposer)
+//@ func State.scheduleTimeout
+//@   trusted
+//@   assigns nothing
+//@ func State.isProposalComplete
+//@   trusted
+//@   assigns nothing
+//@ extern State.decideProposal
+//@   assigns except(consensus.State, cstypes, types, sm)
+//@ func State.enterPropose
+//@   assigns except(types.Vote), walFresh, walSyncedForSign, lastBasicOK, lastCommitVerified
+//@   requires cur: cs.RoundState.Height != height || round <= cs.RoundState.Round
+//@   ensures stepped: old(cs.RoundState.Height == height && cs.RoundState.Round <= round && !(cs.RoundState.Round == round && 3 <= cs.RoundState.Step)) ==> (cs.RoundState.Round == round && (cs.RoundState.Step == 3 || cs.RoundState.Step == 4))
+//@   ensures idle: old(cs.RoundState.Height != height || round < cs.RoundState.Round || (cs.RoundState.Round == round && 3 <= cs.RoundState.Step)) ==> (cs.RoundState.Step == old(cs.RoundState.Step) && cs.RoundState.Round == old(cs.RoundState.Round))
+//@   ensures lockkept: cs.RoundState.LockedRound == old(cs.RoundState.LockedRound) && cs.RoundState.LockedBlock == old(cs.RoundState.LockedBlock)
+//@   ensures same: cs.RoundState.Height == old(cs.RoundState.Height) && cs.RoundState.Votes == old(cs.RoundState.Votes) && cs.RoundState.Round >= old(cs.RoundState.Round)
+//@   atcall State.decideProposal once: cs.RoundState.Height == height && cs.RoundState.Round == round && cs.RoundState.Step < 3
+
+//@ func State.createProposalBlock
+//@   trusted
+//@   assigns nothing
+//@ func State.sendInternalMessage
+//@   trusted
+//@   assigns nothing
+//@ extern types.Proposal.ToProto
+//@   assigns nothing
+//@   ensures same: result != nil && result.Height == p.Height && result.Round == p.Round && result.PolRound == p.POLRound && result.BlockID.Hash == p.BlockID.Hash
+//@ extern types.PrivValidator.SignProposal
+//@   assigns walSyncedForSign
+//@ extern types.PartSet.Total
+//@   assigns nothing
+//@ extern types.PartSet.GetPart
+//@   assigns nothing
+//@ func State.defaultDecideProposal
+//@   atcall PrivValidator.SignProposal exact: arg1.Height == height && arg1.Round == round && arg1.PolRound == cs.RoundState.ValidRound && arg1.BlockID.Hash == types.Block.Hash(block) && (cs.RoundState.ValidBlock != nil ==> block == cs.RoundState.ValidBlock)
+//@   loop 1 invariant true: true
+
+// The remaining step functions: none of them touches the lock; the height changes only inside enterCommit (ASSUMED
+// here - finalizeCommit is the subject of C01); rounds never go back.
+//@ extern cstypes.HeightVoteSet.SetRound
+//@   assigns except(consensus.State, types)
+//@ extern types.EventBus.PublishEventNewRound
+//@   assigns nothing
+//@ func State.NewRoundEvent
+//@   trusted
+//@   assigns nothing
+//@ import metrics github.com/go-kit/kit/metrics
+//@ import events github.com/tendermint/tendermint/libs/events
+//@ extern metrics.Gauge.Set
+//@   assigns nothing
+//@ func State.needProofBlock
+//@   trusted
+//@   assigns nothing
+//@ import tmmath github.com/tendermint/tendermint/libs/math
+//@ import cfg github.com/tendermint/tendermint/config
+//@ extern tmmath.SafeSubInt32
+//@   assigns nothing
+//@ extern tmmath.SafeAddInt32
+//@   assigns nothing
+//@ extern cfg.ConsensusConfig.WaitForTxs
+//@   assigns nothing
+//@ func State.enterNewRound
+//@   assigns except(types.Vote), walFresh, walSyncedForSign, lastBasicOK, lastCommitVerified
+//@   ensures sameH: cs.RoundState.Height == old(cs.RoundState.Height)
+//@   ensures reached: old(cs.RoundState.Height) == height ==> cs.RoundState.Round >= round
+//@   ensures mono: cs.RoundState.Round >= old(cs.RoundState.Round)
+//@   ensures lockkept: cs.RoundState.LockedRound == old(cs.RoundState.LockedRound) && cs.RoundState.LockedBlock == old(cs.RoundState.LockedBlock)
+//@   ensures votes: cs.RoundState.Votes == old(cs.RoundState.Votes)
+//@ func State.enterPrevoteWait
+//@   assigns except(types.Vote), walFresh, walSyncedForSign, lastBasicOK, lastCommitVerified
+//@   ensures same: cs.RoundState.Height == old(cs.RoundState.Height) && cs.RoundState.Round >= old(cs.RoundState.Round) && cs.RoundState.Votes == old(cs.RoundState.Votes)
+//@   ensures lockkept: cs.RoundState.LockedRound == old(cs.RoundState.LockedRound) && cs.RoundState.LockedBlock == old(cs.RoundState.LockedBlock)
+//@ func State.enterPrecommitWait
+//@   assigns except(types.Vote), walFresh, walSyncedForSign, lastBasicOK, lastCommitVerified
+//@   ensures same: cs.RoundState.Height == old(cs.RoundState.Height) && cs.RoundState.Round == old(cs.RoundState.Round) && cs.RoundState.Votes == old(cs.RoundState.Votes)
+//@   ensures lockkept: cs.RoundState.LockedRound == old(cs.RoundState.LockedRound) && cs.RoundState.LockedBlock == old(cs.RoundState.LockedBlock)
+//@ func State.enterCommit
+//@   trusted
+//@   assigns except(types.Vote), walFresh, walSyncedForSign, lastBasicOK, lastCommitVerified
+//@   ensures monoH: cs.RoundState.Height >= old(cs.RoundState.Height)
+//@   ensures lockkept: cs.RoundState.Height == old(cs.RoundState.Height) ==> (cs.RoundState.Round == old(cs.RoundState.Round) && cs.RoundState.Votes == old(cs.RoundState.Votes) && cs.RoundState.LockedRound == old(cs.RoundState.LockedRound) && cs.RoundState.LockedBlock == old(cs.RoundState.LockedBlock))
+
+// Adding a vote: the lock is released here only by a prevote quorum of a round after the lock round and not beyond the
+// current round, for something that is not the locked block; after the call the lock is what it was, or it was released
+// or (re)taken under a prevote quorum of the vote's round (through enterPrecommit).
+// ASSUMED: the vote set of a round that exists is never replaced (HeightVoteSet only adds rounds).
+//@ extern cstypes.HeightVoteSet.AddVote
+//@   assigns except(consensus.State, types.Vote)
+//@ extern types.VoteSet.AddVote
+//@   assigns except(consensus.State, types.Vote)
+//@ extern types.VoteSet.HasAll
+//@   assigns nothing
+//@ extern types.VoteSet.HasTwoThirdsAny
+//@   assigns nothing
+//@ extern types.VoteSet.StringShort
+//@   assigns nothing
+//@ extern types.VoteSet.LogString
+//@   assigns nothing
+//@ extern types.EventBus.PublishEventVote
+//@   assigns nothing
+//@ extern types.EventBus.PublishEventValidBlock
+//@   assigns nothing
+//@ extern events.EventSwitch.FireEvent
+//@   assigns nothing
+//@ spec func polka(cs *State, r int32) bool = res1(types.VoteSet.TwoThirdsMajority(cstypes.HeightVoteSet.Prevotes(cs.RoundState.Votes, r)))
+//@ spec func polkaHash(cs *State, r int32) []byte = types.VoteSet.TwoThirdsMajority(cstypes.HeightVoteSet.Prevotes(cs.RoundState.Votes, r)).Hash
+//@ func State.addVote
+//@   requires vote: vote != nil
+//@   atcall EventBus.PublishEventUnlock justified: vote.Type == 1 && polka(cs, vote.Round) && old(cs.RoundState.LockedRound) < vote.Round && vote.Round <= cs.RoundState.Round && old(cs.RoundState.LockedBlock) != nil && !types.Block.HashesTo(old(cs.RoundState.LockedBlock), polkaHash(cs, vote.Round)) && cs.RoundState.LockedBlock == nil && cs.RoundState.LockedRound == -1
+//@   ensures lockrule: (cs.RoundState.Height == old(cs.RoundState.Height) && result1 == nil) ==> ((cs.RoundState.LockedRound == old(cs.RoundState.LockedRound) && cs.RoundState.LockedBlock == old(cs.RoundState.LockedBlock))
+//@     | || (cs.RoundState.LockedRound == -1 && cs.RoundState.LockedBlock == nil && polka(cs, vote.Round) && !types.Block.HashesTo(old(cs.RoundState.LockedBlock), polkaHash(cs, vote.Round)))
+//@     | || (cs.RoundState.LockedRound == vote.Round && polka(cs, vote.Round) && types.Block.HashesTo(cs.RoundState.LockedBlock, polkaHash(cs, vote.Round))))
